@@ -158,11 +158,13 @@ class _WhereIter:
 
 class DetectWhereSortedSummary(Unit):
     """Callee summary of utils.detect_where_sorted for sorted unique sources: every element of the union is
-    classified exactly once and correctly. (The function's own body is verified by contracts/sorted.py.)"""
+    classified exactly once and correctly. The function's own body is proved against this contract by contracts/csorted.py
+    (unit utils:detect_where_sorted@body); what remains assumed is only the restatement over key sets used here."""
     fn = 'utils:detect_where_sorted'
     props = ('C16',)
     trusted = True
-    note = 'summary for sorted unique sources; discharged separately on the real body (bounded exhaustive + C16 unit)'
+    note = ('callee summary over key sets; the body is proved for strictly increasing sequences of any length by '
+            'utils:detect_where_sorted@body (contracts/csorted.py) and checked exhaustively by the bounded C16 helper enumeration')
 
     def havoc(self, vc, I, a):
         left = as_keyed_source(I, a.left_iterator, a.left_key)
@@ -175,7 +177,7 @@ class MergeSortedSummary(Unit):
     fn = 'utils:merge_sorted'
     props = ('C16',)
     trusted = True
-    note = 'summary: the sorted union of two sorted unique sources'
+    note = 'callee summary over key sets (the sorted union of two sorted unique sources); the body is proved by utils:merge_sorted@body + utils:detect_where_sorted@body (contracts/csorted.py)'
 
     def havoc(self, vc, I, a):
         l, r = as_keyed_source(I, a.iterator1), as_keyed_source(I, a.iterator2)
@@ -186,7 +188,7 @@ class YieldFirstElementSummary(Unit):
     fn = 'utils:yield_first_element'
     props = ('C16',)
     trusted = True
-    note = 'summary: first column of a full scan ordered by hashkey'
+    note = 'callee summary over key sets (first column of a full scan ordered by hashkey); the body is proved by utils:yield_first_element@body (contracts/csorted.py)'
 
     def havoc(self, vc, I, a):
         from pyvc import sqlmodel as SQL
